@@ -7,8 +7,9 @@ injection at the boundary of the process:
 * `run_once` (one Monte-Carlo trial) is wrapped: hook `t` at entry; the real trial is executed
   and its `effective_error` gets a unique trial id appended (so that "kept unchanged as a prefix"
   and "none counted twice" can be decided on the file); (id -> simulation, values) is logged.
-* `builtins.open` for writing inside the scratch directory: hook `o`; the returned file object is
-  an unbuffered cutter that can stop the write at a byte offset class.
+* `builtins.open` for writing inside the scratch directory: hook `o`; the returned file object
+  keeps written bytes in memory until flush()/close() (as a buffered Python file may) and can stop
+  the write at a byte offset class (0, header, middle, last byte, all bytes but not closed).
 * `os.replace` onto the results file: hook `r`.
 
 An injected *kill* is a BaseException that nothing in panqec catches, after which every further
@@ -36,7 +37,8 @@ ID = 'C12'
 LEVEL = 'proof'
 LEVEL_TEXT = ('Lean theorems about the save/load/crash/restart state machine of BatchSimulation, proved by '
               'induction over an arbitrary list of events (micro-steps, kills, KeyboardInterrupts, restarts with '
-              'grown specifications, non-decreasing targets and any save frequency >= 1): a restart never raises, a '
+              'grown specifications, non-decreasing targets and any save frequency >= 1): a restart never raises and, left '
+              'alone, reaches completion after finitely many steps, a '
               'completed run leaves exactly the requested number of trials per simulation with equally long lists, '
               'the last completed save stays an unchanged prefix, no trial id occurs twice, records are adopted only '
               'on identical inputs; the old in-place protocol is refuted on a concrete crash schedule. The model is '
